@@ -126,7 +126,7 @@ func runC10(r *kit.Run) {
 		c.Hook = []string{"launched: service finishes before Start's deferred stores", "checked: service finishes between a late Start's finished-check and its latch"}[i%2]
 		c10Run(r, 1_000_000+i, c, rng)
 	}
-	nr := int64(r.Scale(72, 6000))
+	nr := int64(r.Scale(72, 1200))
 	for i := int64(0); i < nr && !r.Stopped(); i++ {
 		if !r.Mine(1_500_000 + i) {
 			continue
